@@ -70,6 +70,7 @@ type Run struct {
 	faultedMod      map[uint64]bool
 	Taints          map[uint64]string // UP SEID -> first known-finding trigger applied to the session
 	sharedTaint     string
+	refusedEst      bool // an establishment was refused half-way by the UP4 plug-in in this run
 	noTaintFallback bool
 	soft            int
 	softNext        bool
